@@ -1042,6 +1042,23 @@ class World:
                 mi["script_sig"] = enc([extra, ss_items[1] if ss_items and len(ss_items) > 1 else extra])
                 return "sigfree_scriptsig_p2pkh"
             return None
+        if k == "sigfree_opcodes":
+            # a signature-free scriptSig made of opcodes (conditionals that try to swallow the scriptPubKey, stack tricks, ...)
+            cat = [[0x51, 0x00, 0x63], [0x51, 0x51, 0x64], [0x00, 0x63], [0x51, 0x64], [0x51, 0x00, 0x63, 0x51], [0x51, 0x63, 0x51, 0x67], [0x51], [0x51, 0x76], [0x74], [0x51, 0x69, 0x51],
+                   [0x00, 0x64, 0x51, 0x68, 0x00, 0x63], [0x51, 0x00, 0x63, 0x00, 0x63], [0x6A], [0x51, 0x6A], [0x51, 0x75, 0x51, 0x00, 0x63]]
+            if a % 3 == 0:
+                r_ = plan_rng(a, "ops")
+                pool = [0x00, 0x51, 0x52, 0x63, 0x64, 0x67, 0x68, 0x69, 0x6A, 0x74, 0x75, 0x76, 0x77, 0x78, 0x7C, 0x82, 0x87, 0x88, 0x91, 0x92, 0x9A, 0x9B, 0xA9, 0xAA]
+                ops = [r_.choice(pool) for _ in range(r_.randrange(1, 6))]
+            else:
+                ops = cat[(a // 3) % len(cat)]
+            tail = b""
+            if kind in ("p2sh_ms", "p2sh_p2wpkh", "p2sh_p2wsh_ms") and b % 2 == 0 and inp.redeem is not None:
+                tail = tm.push(inp.redeem)  # ... in front of the genuine redeem script push
+            if kind in ("p2wpkh", "p2wsh_ms", "p2tr_key", "p2tr_script") and b % 3 == 0:
+                mi["witness"] = []
+            mi["script_sig"] = bytes(ops) + tail
+            return "sigfree_opcodes_scriptsig"
         if k == "wrong_script":
             # another (well-formed) redeem/witness script in place of the committed one
             other = tm.multisig_script(1, [secp.sec(pub((inp.keys[0] + 1 + a) % 8))])
@@ -1210,7 +1227,7 @@ def generate(ch, tier, prop):
                 vbudget -= 1
                 steps.append({"op": "verify", "i": i, "reps": 1})
         # transmissions with in-flight tampering: placed right after sign operations so that the spend is a valid one
-        TAMPER = ["flip", "flip", "retag", "retag", "drop_sig", "swap_sigs", "dup_sig", "foreign_sig", "cb_parity", "cb_flip", "annex_only", "empty_witness", "truncate_witness", "sigfree_scriptsig", "sigfree_scriptsig", "wrong_script"]
+        TAMPER = ["sigfree_opcodes", "flip", "flip", "retag", "retag", "drop_sig", "swap_sigs", "dup_sig", "foreign_sig", "cb_parity", "cb_flip", "annex_only", "empty_witness", "truncate_witness", "sigfree_scriptsig", "sigfree_scriptsig", "wrong_script"]
         out = []
         tbudget = ch.randrange(1, 5)
         for st in steps:
@@ -1228,14 +1245,14 @@ def generate(ch, tier, prop):
 
 
 TAMPER_BY_KIND = {
-    "p2pkh": ["flip_ss", "retag", "foreign_sig", "sigfree_scriptsig"],
-    "p2sh_ms": ["flip_ss", "retag", "drop_sig", "swap_sigs", "dup_sig", "foreign_sig", "sigfree_scriptsig", "wrong_script"],
-    "p2wpkh": ["flip", "retag", "foreign_sig", "empty_witness", "truncate_witness", "sigfree_scriptsig"],
-    "p2sh_p2wpkh": ["flip", "flip_ss", "retag", "foreign_sig", "empty_witness", "sigfree_scriptsig"],
-    "p2wsh_ms": ["flip", "retag", "drop_sig", "swap_sigs", "dup_sig", "foreign_sig", "empty_witness", "truncate_witness", "sigfree_scriptsig", "wrong_script"],
-    "p2sh_p2wsh_ms": ["flip", "flip_ss", "retag", "drop_sig", "swap_sigs", "dup_sig", "foreign_sig", "sigfree_scriptsig", "wrong_script"],
-    "p2tr_key": ["flip", "retag", "foreign_sig", "annex_only", "empty_witness", "sigfree_scriptsig"],
-    "p2tr_script": ["flip", "retag", "drop_sig", "swap_sigs", "dup_sig", "foreign_sig", "cb_parity", "cb_flip", "annex_only", "truncate_witness", "sigfree_scriptsig", "wrong_script"],
+    "p2pkh": ["sigfree_opcodes", "flip_ss", "retag", "foreign_sig", "sigfree_scriptsig"],
+    "p2sh_ms": ["sigfree_opcodes", "flip_ss", "retag", "drop_sig", "swap_sigs", "dup_sig", "foreign_sig", "sigfree_scriptsig", "wrong_script"],
+    "p2wpkh": ["sigfree_opcodes", "flip", "retag", "foreign_sig", "empty_witness", "truncate_witness", "sigfree_scriptsig"],
+    "p2sh_p2wpkh": ["sigfree_opcodes", "flip", "flip_ss", "retag", "foreign_sig", "empty_witness", "sigfree_scriptsig"],
+    "p2wsh_ms": ["sigfree_opcodes", "flip", "retag", "drop_sig", "swap_sigs", "dup_sig", "foreign_sig", "empty_witness", "truncate_witness", "sigfree_scriptsig", "wrong_script"],
+    "p2sh_p2wsh_ms": ["sigfree_opcodes", "flip", "flip_ss", "retag", "drop_sig", "swap_sigs", "dup_sig", "foreign_sig", "sigfree_scriptsig", "wrong_script"],
+    "p2tr_key": ["sigfree_opcodes", "flip", "retag", "foreign_sig", "annex_only", "empty_witness", "sigfree_scriptsig"],
+    "p2tr_script": ["sigfree_opcodes", "flip", "retag", "drop_sig", "swap_sigs", "dup_sig", "foreign_sig", "cb_parity", "cb_flip", "annex_only", "truncate_witness", "sigfree_scriptsig", "wrong_script"],
 }
 
 
@@ -1274,7 +1291,7 @@ def enumerate_plans(tier, prop, seed):
     reps = 1 if tier == "quick" else 6
     for kind in KINDS:
         for tk in ["none"] + TAMPER_BY_KIND[kind]:
-            for rep in range(reps):
+            for rep in range(reps if tk != "sigfree_opcodes" else (6 if tier == "quick" else 48)):
                 n = 1 if kind in ("p2pkh", "p2wpkh", "p2sh_p2wpkh", "p2tr_key") else r.choice([2, 3])
                 spec = {"kind": kind, "txid": "%064x" % r.getrandbits(256), "vout": r.randrange(3), "sequence": 0xFFFFFFFE, "amount": 100000 + r.randrange(1000), "keys": r.sample(range(8), n)}
                 if n > 1:
@@ -1288,7 +1305,7 @@ def enumerate_plans(tier, prop, seed):
                     spec["annex"] = "50" + "%02x" % r.randrange(256)
                 t = {"op": "transmit", "i": 0}
                 if tk != "none":
-                    t["mut"] = {"kind": "flip" if tk == "flip_ss" else tk, "a": r.randrange(10000), "b": r.randrange(256), "region": "ss" if tk == "flip_ss" else "w"}
+                    t["mut"] = {"kind": "flip" if tk == "flip_ss" else tk, "a": (r.randrange(10000) if tk != "sigfree_opcodes" else rep * 3 + 1 + (rep % 2)), "b": r.randrange(256), "region": "ss" if tk == "flip_ss" else "w"}
                 yield {"version": 2, "locktime": 0, "inputs": [spec], "outputs": [{"amount": 90000, "spk": tm.spk_p2wpkh(bytes(20)).hex()}, {"amount": 5000, "spk": tm.spk_p2pkh(bytes(20)).hex()}],
                        "steps": [{"op": "sign", "i": 0, "ht": r.choice([0, 1, 3, 0x81]), "pick": r.randrange(1000)}, t], "enum": "catalogue"}
 
